@@ -56,18 +56,66 @@ func (q *c20Queue) Eject(h core.InfoHash) {
 	q.inner.Eject(h)
 }
 
-func (q *c20Queue) take() string {
-	s := "calls=" + verifh.List(q.calls)
+func (q *c20Queue) take() []string {
+	c := q.calls
 	q.calls = nil
-	return s
+	return c
+}
+
+// c20Shadow is the content of the queue as implied by the calls made on it and by what Next returned
+// (API-level ghost; the queue's own behaviour is tied by machine "aq").
+type c20Shadow struct {
+	ready   []string
+	pending map[string]bool
+}
+
+func (sh *c20Shadow) apply(call string) {
+	kv := strings.SplitN(call, ":", 2)
+	h := kv[1]
+	del := func() {
+		for i, x := range sh.ready {
+			if x == h {
+				sh.ready = append(sh.ready[:i:i], sh.ready[i+1:]...)
+				return
+			}
+		}
+	}
+	switch kv[0] {
+	case "add":
+		sh.ready = append(sh.ready, h)
+	case "next":
+		if h != "-" {
+			del()
+			sh.pending[h] = true
+		}
+	case "ready":
+		if sh.pending[h] {
+			delete(sh.pending, h)
+			sh.ready = append(sh.ready, h)
+		}
+	case "eject":
+		delete(sh.pending, h)
+		del()
+	}
+}
+
+func (sh *c20Shadow) tok() string {
+	var p []string
+	for h := range sh.pending {
+		p = append(p, h)
+	}
+	return "q=" + verifh.List(sh.ready) + "|" + verifh.SortedList(p)
 }
 
 type c20Run struct {
-	w     *vWorld
-	tr    *verifh.T
-	q     *c20Queue
-	gens  map[*dispatch.Dispatcher]int
-	disps []*dispatch.Dispatcher
+	w        *vWorld
+	tr       *verifh.T
+	q        *c20Queue
+	sh       *c20Shadow
+	expected int // announce requests the scheduler must have sent so far
+	nInc     int
+	gens     map[*dispatch.Dispatcher]int
+	disps    []*dispatch.Dispatcher
 	// an active connection per saturated torrent (MaxOpenConnectionsPerTorrent is 1)
 	satConn    [c20NTor]*conn.Conn
 	satCleanup [c20NTor]func()
@@ -159,6 +207,60 @@ func (r *c20Run) do(op []string) bool {
 		if ctrl := w.ctrl(i); ctrl != nil && len(r.disps) > nd && ctrl.dispatcher.Complete() {
 			r.awaitNotice(ctrl.dispatcher)
 		}
+		if ctrl := w.ctrl(i); ctrl != nil && !ctrl.dispatcher.Complete() {
+			r.expected++ // "immediately announce new torrents"
+		}
+	case "inc":
+		// an honest remote peer connects for torrent i (the agent has it on disk): addIncomingConn adds the
+		// torrent when it has no control. The peer leaves again at once.
+		i, ok := tor(2)
+		if !ok {
+			return false
+		}
+		if !w.exists(w.cads.Any(), i) {
+			if _, err := w.createTorrent(i, 0); err != nil {
+				panic(err)
+			}
+		}
+		r.nInc++
+		id, err := core.HashedPeerID(fmt.Sprintf("verif-inc-%d", r.nInc))
+		if err != nil {
+			panic(err)
+		}
+		bf, _ := bitset.New(uint(w.np)).MarshalBinary()
+		nd := len(r.disps)
+		in := w.incoming(id, i, w.blobs[i].mi.InfoHash(), bf)
+		first = []string{in.res}
+		r.note()
+		if ctrl := w.ctrl(i); ctrl != nil && len(r.disps) > nd && ctrl.dispatcher.Complete() {
+			r.awaitNotice(ctrl.dispatcher)
+		}
+		if in.res == "active" || in.res == "connrejected" {
+			if in.res == "active" {
+				in.remote.Close()
+			}
+			e, ok := w.loop.take(func(e event) bool {
+				ce, ok := e.(connClosedEvent)
+				return ok && ce.c == in.c
+			}, 10*time.Second)
+			if !ok {
+				panic("harness: no ConnClosed event")
+			}
+			e.apply(w.st)
+		}
+	case "evict":
+		// the store's cleanup evicts the cached blob while the scheduler may still hold a control for it
+		i, ok := tor(2)
+		if !ok {
+			return false
+		}
+		first = []string{"none"}
+		if w.exists(w.cads.Cache(), i) {
+			if err := w.cads.Cache().DeleteFile(w.blobs[i].digest.Hex()); err != nil {
+				panic(err)
+			}
+			first = []string{"evicted"}
+		}
 	case "finish":
 		i, ok := tor(2)
 		if !ok {
@@ -212,6 +314,9 @@ func (r *c20Run) do(op []string) bool {
 		first = []string{"none"}
 		if d != nil {
 			e, _ := w.takeCompletion(d, 0)
+			if ctrl := w.ctrl(i); ctrl != nil && ctrl.dispatcher == d {
+				r.expected++ // "immediately announce completed torrents"
+			}
 			e.apply(w.st)
 			first = []string{"applied"}
 		}
@@ -258,23 +363,73 @@ func (r *c20Run) do(op []string) bool {
 		}
 	case "atick":
 		announceTickEvent{}.apply(w.st)
-	case "ares":
+		// did the tick break out with a torrent to announce? (last Next result that was not re-queued)
+		last := ""
+		readied := map[string]bool{}
+		for _, c := range r.q.calls {
+			if strings.HasPrefix(c, "next:") {
+				last = c[5:]
+			}
+			if strings.HasPrefix(c, "ready:") {
+				readied[c[6:]] = true
+			}
+		}
+		if j, okj := c20Tor(last); okj && !readied[last] && w.ctrl(j) != nil {
+			r.expected++
+		}
+	case "ares", "aerr":
+		// the tracker answers the oldest announce request of torrent i that is in flight; the scheduler's
+		// announce goroutine turns the answer into its event, which is applied
 		i, ok := tor(2)
 		if !ok {
 			return false
 		}
-		announceResultEvent{w.blobs[i].mi.InfoHash(), nil}.apply(w.st)
-	case "aerr":
-		i, ok := tor(2)
-		if !ok {
-			return false
+		h := w.blobs[i].mi.InfoHash()
+		var reply error
+		if op[1] == "aerr" {
+			reply = errors.New("verif: tracker error")
 		}
-		announceErrEvent{w.blobs[i].mi.InfoHash(), errors.New("verif")}.apply(w.st)
+		first = []string{"none"}
+		if w.ac.release(h, reply) {
+			e, ok := w.loop.take(func(e event) bool {
+				switch x := e.(type) {
+				case announceResultEvent:
+					return op[1] == "ares" && x.infoHash == h
+				case announceErrEvent:
+					return op[1] == "aerr" && x.infoHash == h
+				}
+				return false
+			}, 10*time.Second)
+			if !ok {
+				panic("harness: the released announce produced no event")
+			}
+			e.apply(w.st)
+			first = []string{"answered"}
+		}
 	default:
 		return false
 	}
 	r.note()
-	r.tr.Op(rec, append(first, r.q.take())...)
+	w.ac.waitTotal(r.expected)
+	calls := r.q.take()
+	for _, c := range calls {
+		r.sh.apply(c)
+	}
+	fl := ""
+	for i := 0; i < c20NTor; i++ {
+		n := w.ac.count(w.blobs[i].mi.InfoHash())
+		fl += strconv.Itoa(n)
+		if n > 0 {
+			for _, x := range r.sh.ready {
+				if x == fmt.Sprintf("h%d", i) {
+					// the clause "ready again only after its in-flight announce finished", on what the scheduler did
+					r.tr.PropFail("ready-while-announce-in-flight", x, fmt.Sprintf("inflight=%d", n))
+				}
+			}
+		}
+	}
+	r.tr.Op(rec, append(first, r.sh.tok(), "fl="+fl)...)
+	r.tr.Rec("calls", []string{verifh.List(calls)}, nil) // evidence only: the exact call sequence is not compared
 	r.status()
 	return true
 }
@@ -313,7 +468,10 @@ func c20SchedExec(tr *verifh.T, c verifh.Case) {
 		return "h?"
 	}}
 	w.st = newState(w.sched, q)
-	r := &c20Run{w: w, tr: tr, q: q, gens: map[*dispatch.Dispatcher]int{}}
+	w.ac.mu.Lock()
+	w.ac.scripted = true
+	w.ac.mu.Unlock()
+	r := &c20Run{w: w, tr: tr, q: q, sh: &c20Shadow{pending: map[string]bool{}}, gens: map[*dispatch.Dispatcher]int{}}
 	defer func() {
 		for _, c := range r.satCleanup {
 			if c != nil {
@@ -384,11 +542,13 @@ func TestVerif_C20Sched(t *testing.T) {
 		{{"op", "atick"}},
 		{{"op", "ares", "h0"}},
 		{{"op", "sat", "h0"}},
+		{{"op", "inc", "h0"}},
+		{{"op", "evict", "h0"}},
 	}
 	if verifh.Thorough() {
 		letters = append(letters, [][]string{{"op", "aerr", "h0"}}, [][]string{{"op", "unsat", "h0"}}, [][]string{{"op", "req", "h1"}})
 	}
-	depth := verifh.Scale(4, 5)
+	depth := verifh.Scale(3, 5)
 	var rec func(prefix [][]string, d int)
 	rec = func(prefix [][]string, d int) {
 		if d == 0 {
@@ -402,6 +562,44 @@ func TestVerif_C20Sched(t *testing.T) {
 	}
 	for d := 1; d <= depth; d++ {
 		rec(nil, d)
+	}
+	// (a2) every schedule to depth 4 over the events around completion, removal, eviction and re-request
+	core := [][][]string{
+		{{"op", "req", "h0"}}, {{"op", "finish", "h0"}}, {{"op", "notice", "h0", "g*"}}, {{"op", "rm", "h0"}},
+		{{"op", "adv", "5"}, {"op", "tick"}}, {{"op", "evict", "h0"}}, {{"op", "inc", "h0"}},
+	}
+	var rec2 func(prefix [][]string, d int)
+	rec2 = func(prefix [][]string, d int) {
+		if d == 0 {
+			c20SchedExec(tr, verifh.Case{Cfg: cfg, Ops: prefix})
+			tr.Count("core_exhaustive_cases", 1)
+			return
+		}
+		for _, l := range core {
+			rec2(append(prefix[:len(prefix):len(prefix)], l...), d-1)
+		}
+	}
+	rec2(nil, verifh.Scale(4, 6))
+	// (a3) eviction of the cached blob under a live control, then a new request (Eject + Add in one event),
+	// with the completion event before the eviction, after the re-request, or never; every 2-letter continuation
+	for when := 0; when < 3; when++ {
+		for _, l1 := range core {
+			for _, l2 := range core {
+				ops := [][]string{{"op", "req", "h0"}, {"op", "atick"}, {"op", "finish", "h0"}}
+				if when == 0 {
+					ops = append(ops, []string{"op", "notice", "h0", "g*"})
+				}
+				ops = append(ops, []string{"op", "evict", "h0"}, []string{"op", "req", "h0"})
+				if when == 1 {
+					ops = append(ops, []string{"op", "notice", "h0", "g*"})
+				}
+				ops = append(ops, l1...)
+				ops = append(ops, l2...)
+				ops = append(ops, []string{"op", "notice", "h0", "g*"}, []string{"op", "atick"})
+				c20SchedExec(tr, verifh.Case{Cfg: cfg, Ops: ops})
+				tr.Count("eviction_cases", 1)
+			}
+		}
 	}
 	// (b) random long schedules over two torrents
 	rnd := verifh.NewRand(verifh.Seed(), "c20sched")
@@ -429,10 +627,14 @@ func TestVerif_C20Sched(t *testing.T) {
 				o = []string{"op", "ares", h}
 			case x < 93:
 				o = []string{"op", "aerr", h}
-			case x < 97:
+			case x < 95:
 				o = []string{"op", "sat", h}
-			default:
+			case x < 96:
 				o = []string{"op", "unsat", h}
+			case x < 98:
+				o = []string{"op", "inc", h}
+			default:
+				o = []string{"op", "evict", h}
 			}
 			ops = append(ops, o)
 			tr.Count("random_op_"+o[1], 1)
